@@ -401,8 +401,11 @@ class DiffusionModel(GenericModel):
         if any(xsum > 1):
             print('Compositions add up to above 1 between z = [{:.3e}, {:.3e}]'.format(np.amin(self.z[xsum>1]), np.amax(self.z[xsum>1])))
             raise Exception('Some compositions sum up to above 1')
-        self.x[self.x > self.constraints.minComposition] = self.x[self.x > self.constraints.minComposition] - len(self.allElements)*self.constraints.minComposition
-        self.x[self.x < self.constraints.minComposition] = self.constraints.minComposition
+        #Shift/clamp only when the profile is first built. setup is called by every solve call, and
+        #repeating the shift would remove len(allElements)*minComposition from each node per call
+        if not self.isSetup:
+            self.x[self.x > self.constraints.minComposition] = self.x[self.x > self.constraints.minComposition] - len(self.allElements)*self.constraints.minComposition
+            self.x[self.x < self.constraints.minComposition] = self.constraints.minComposition
         self.isSetup = True
         self.record(self.t) #Record at t = 0
 
